@@ -1762,7 +1762,18 @@ impl TcpProxy {
         }
         if listener.cluster_id.as_deref() == Some(front.cluster_id.as_str()) {
             listener.set_tags(address.to_string(), None);
-            listener.cluster_id = None;
+            // The configuration may hold the frontends of several clusters
+            // for one address; the listener serves the last one added. When
+            // that one goes, a cluster whose frontend is still registered
+            // takes over instead of leaving the listener unrouted.
+            let token = listener.token;
+            listener.cluster_id = self
+                .fronts
+                .iter()
+                .filter(|(_, listener_token)| **listener_token == token)
+                .map(|(cluster_id, _)| cluster_id)
+                .min()
+                .cloned();
         }
         Ok(())
     }
